@@ -161,10 +161,43 @@ class Gen:
             if ws:
                 return [{'e': 'push', 'branch': r.choice(ws), 'label': self._label(), 'as': AUTHOR}]
             return []
+        if self.admin_jobs and r.random() < 0.45:
+            return [self.branch_job(refs)]
         if self.admin_jobs and self.cfg['use_queue']:
             kind = r.choice(['rebuild_queues', 'delete_queues', 'force_merge_queues'])
             return [{'e': 'job_api', 'kind': kind}]
         return [{'e': 'job_pr', 'pr': p['id']}]
+
+    def branch_job(self, refs):
+        """A create-branch / delete-branch admin job on a name around the existing cascade."""
+        r = self.rng
+        devs = []
+        for n in refs:
+            if n.startswith('development/'):
+                v = n.split('/', 1)[1].split('.')
+                devs.append((int(v[0]), int(v[1]) if len(v) > 1 else None, n))
+        devs.sort(key=lambda t: (t[0], 10 ** 6 if t[1] is None else t[1]))
+        if r.random() < 0.7 or not devs:
+            cands = []
+            for major, minor, _n in devs:
+                if minor is not None:
+                    cands += ['development/%d.%d' % (major, minor + 1), 'development/%d.%d' % (major + 1, 0),
+                              'stabilization/%d.%d.%d' % (major, minor, r.choice([0, 1, 5, 19])),
+                              'hotfix/%d.%d.%d' % (major, minor, r.choice([0, 17]))]
+                    if minor > 0:
+                        cands.append('development/%d.%d' % (major, minor - 1))
+            cands += ['development/3.9', 'development/99.0']
+            args = {'branch': r.choice(cands)}
+            roll = r.random()
+            if roll < 0.2 and devs:
+                args['branch_from'] = r.choice(devs)[2]
+            elif roll < 0.3:
+                srcs = [p['src'] for p in self.prs if p['src'] in refs]
+                if srcs:
+                    args['branch_from'] = refs[r.choice(srcs)][:12]
+            return {'e': 'job_api', 'kind': 'create_branch', 'args': args}
+        dels = [n for n in refs if n.startswith('stabilization/') or n.startswith('hotfix/')] + [d[2] for d in devs[:1]]
+        return {'e': 'job_api', 'kind': 'delete_branch', 'args': {'branch': r.choice(dels)}}
 
 
 def run_history(world, events, on_job=None, on_event=None, fault_for=None):
